@@ -8,4 +8,5 @@ d=$(mktemp -d /tmp/gabi-q-XXXXXX); o=$(mktemp -d /tmp/gabi-qo-XXXXXX)
 trap 'rm -rf "$d" "$o"' EXIT
 rsync -a --exclude .git /repo/ "$d"/
 (cd "$d" && git apply "$P") || { echo "patch does not apply"; exit 2; }
-if [ -n "${3:-}" ]; then "$V/bin/gvc" -repo "$d" -prop "$2" -out "$o" -func "$3" 2>&1 | tail -${TAIL:-8}; else "$V/bin/gvc" -repo "$d" -prop "$2" -out "$o" 2>&1 | tail -${TAIL:-8}; fi
+L=""; [ -f "$V/ledger/locals.json" ] && L="-locals $V/ledger/locals.json"
+if [ -n "${3:-}" ]; then "$V/bin/gvc" -repo "$d" -prop "$2" -out "$o" $L -func "$3" 2>&1 | tail -${TAIL:-8}; else "$V/bin/gvc" -repo "$d" -prop "$2" -out "$o" $L 2>&1 | tail -${TAIL:-8}; fi
